@@ -5,7 +5,7 @@ import os
 
 import numpy as np
 
-from .common import Disagreement, drive, qs, parse_qs, ROOT
+from .common import Disagreement, drive, q, qs, parse_qs, ROOT
 
 PROP_MODULE = 'PbVerif.Props.C18'
 RULE = ('cases = (function, N or shape, pad length, mode, extrapolate window(s), kernel length); model comparison in exact rationals '
@@ -26,6 +26,88 @@ def mat(a):
 def close(a, b, tol=1e-9):
     a, b = np.asarray(a, float), np.asarray(b, float)
     return a.shape == b.shape and bool(np.allclose(a, b, rtol=0, atol=tol * max(1.0, float(np.max(np.abs(b))) if b.size else 1.0)))
+
+
+def _spec_forms(rng, m, n):
+    """(pad argument, window argument, pad ints, window ints or None, label) for pad_edges2d(..., 'extrapolate'):
+    pad_length scalar / one item / pair / four values, windows default / scalar / pair / four / nested 2x2,
+    with windows from 1 to beyond the data, plus the malformed ones (0, negative, length 3)."""
+    wvals = sorted({1, 2, 3, m, n, m + 2, n + 3})
+    forms = []
+    pick = lambda vals: int(vals[int(rng.integers(0, len(vals)))])
+    pvals = [1, 2, 3, m, n + 1, 2 * n]
+    for _ in range(4):
+        p, q_ = pick(pvals), pick(pvals)
+        pads = [(p, [p], 'scalar'), (np.int64(p), [p], 'np scalar'), ([p], [p], 'one item'), ((p, q_), [p, q_], 'pair'),
+                (np.array([p, q_]), [p, q_], 'pair array'), ([p, p, q_, q_], [p, p, q_, q_], 'four equal pairs'),
+                ([p, pick(pvals), q_, pick(pvals)], None, 'four')]
+        for parg, pints, plabel in pads:
+            if pints is None:
+                pints = [int(v) for v in parg]
+            w1, w2, w3, w4 = pick(wvals), pick(wvals), pick(wvals), pick(wvals)
+            wins = [(None, None, 'default'), (w1, [w1], 'scalar'), ((w1, w3), [w1, w3], 'pair'),
+                    ([w1, w2, w3, w4], [w1, w2, w3, w4], 'four'), ([[w1, w2], [w3, w4]], [w1, w2, w3, w4], 'nested')]
+            sel = wins if plabel in ('pair', 'scalar') else [wins[int(rng.integers(0, len(wins)))]]
+            for warg, wints, wlabel in sel:
+                forms.append((parg, warg, pints, wints, f'pad {plabel}, window {wlabel}'))
+    p = pick(pvals)
+    for parg, pints in [(0, [0]), ((p, 0), [p, 0]), ((0, p), [0, p]), ((-1, p), [-1, p]), ((p, -2), [p, -2]), ((0, -1), [0, -1]),
+                        ([p, p, p], [p, p, p]), ([p, 0, p, p], [p, 0, p, p]), ([p, p, p, -1], [p, p, p, -1]), ([p] * 5, [p] * 5)]:
+        forms.append((parg, None, pints, None, 'malformed pad'))
+        forms.append((parg, 2, pints, [2], 'malformed pad'))
+    for warg, wints in [(0, [0]), ((2, 0), [2, 0]), ((-1, 2), [-1, 2]), ([2, 2, 2], [2, 2, 2]), ([1, 2, 3, 0], [1, 2, 3, 0]),
+                        ([2] * 5, [2] * 5)]:
+        forms.append(((p, 1), warg, [p, 1], wints, 'malformed window'))
+    return forms
+
+
+def _pad2d_outcome(utils, Y, parg, warg):
+    """'ok' + array, or the name of the documented exception; anything else propagates"""
+    try:
+        return 'ok', utils.pad_edges2d(Y, parg, 'extrapolate', extrapolate_window=warg)
+    except NotImplementedError:
+        return 'NotImplementedError', None
+    except ValueError:
+        return 'ValueError', None
+
+
+def _jsonable(v):
+    if v is None:
+        return None
+    return np.asarray(v).tolist()
+
+
+
+def _rows1d(utils, Y, pr_, pc_, w4):
+    """rows pr..pr+M-1 of the 2-D result are pad_edges of the rows (windows truncated to the row, one point = constant),
+    columns pc..pc+N-1 are pad_edges of the columns"""
+    m, n = Y.shape
+    out = utils.pad_edges2d(Y, (pr_, pc_), 'extrapolate', extrapolate_window=[w4[:2], w4[2:]])
+    tol = 1e-8 * (1 + pr_ + pc_)
+    if out.shape != (m + 2 * pr_, n + 2 * pc_):
+        return f'pad_edges2d({m}x{n}, pad={pr_, pc_}, windows={w4}) has shape {out.shape}'
+    for i in range(m):
+        want = utils.pad_edges(Y[i], pc_, 'extrapolate', extrapolate_window=[min(w4[2], n), min(w4[3], n)])
+        if not close(out[pr_ + i], want, tol):
+            return (f'row {pr_ + i} of pad_edges2d({m}x{n}, pad={pr_, pc_}, windows={w4}) is not pad_edges of row {i}: '
+                    f'max diff {float(np.max(np.abs(out[pr_ + i] - want))):.3g}')
+    for j in range(n):
+        want = utils.pad_edges(Y[:, j], pr_, 'extrapolate', extrapolate_window=[min(w4[0], m), min(w4[1], m)])
+        if not close(out[:, pc_ + j], want, tol):
+            return (f'column {pc_ + j} of pad_edges2d({m}x{n}, pad={pr_, pc_}, windows={w4}) is not pad_edges of column {j}: '
+                    f'max diff {float(np.max(np.abs(out[:, pc_ + j] - want))):.3g}')
+    # pad2d_all_rows_are_1d / extrap2d_corner_orders_agree: the whole result, corners included, is "columns, then rows"
+    # and "rows, then columns" of the 1-D function
+    wr_, wc_ = [min(w4[0], m), min(w4[1], m)], [min(w4[2], n), min(w4[3], n)]
+    cols = np.array([utils.pad_edges(Y[:, j], pr_, 'extrapolate', extrapolate_window=wr_) for j in range(n)]).T
+    cr = np.array([utils.pad_edges(cols[k], pc_, 'extrapolate', extrapolate_window=wc_) for k in range(m + 2 * pr_)])
+    rows = np.array([utils.pad_edges(Y[i], pc_, 'extrapolate', extrapolate_window=wc_) for i in range(m)])
+    rc = np.array([utils.pad_edges(rows[:, l], pr_, 'extrapolate', extrapolate_window=wr_) for l in range(n + 2 * pc_)]).T
+    for name, full in (('columns then rows', cr), ('rows then columns', rc)):
+        if not close(out, full, 1e-7 * (1 + pr_ + pc_) ** 2):
+            return (f'pad_edges2d({m}x{n}, pad={pr_, pc_}, windows={w4}) is not pad_edges applied to {name} (corners): '
+                    f'max diff {float(np.max(np.abs(out - full))):.3g}')
+    return None
 
 
 def correspond(ctx):
@@ -155,8 +237,63 @@ def correspond(ctx):
                 if not close(outp, wantp, 1e-8 * (1 + pr + pc)):
                     dis.append(Disagreement('c18.linear', 'linear:2d' + (':window1' if 1 in w4 else ''),
                                             f'pad_edges2d does not continue planar data exactly ({m}x{n}, pad={pr, pc}, windows={w4}'
-                                            f'{" (default)" if ws is None else ""}): max err {float(np.max(np.abs(outp - wantp))):.3g}',
+                                            f'{" (default)" if ws is None else ""}): '
+                                            + (f'max err {float(np.max(np.abs(outp - wantp))):.3g}' if outp.shape == wantp.shape else f'shape {outp.shape}'),
                                             dict(meta, Y=Yp.tolist(), check='planar'), True))
+    # ---- 2-D: the argument forms of pad_edges2d (scalar / pair / four-valued pad_length and windows), single-row and
+    # single-column data, windows beyond the data, and the malformed forms (which raise), against `padEdges2dExtrap`
+    for (m, n) in [(1, 1), (1, 4), (3, 1), (2, 2), (2, 3), (4, 3)] + ([(6, 5), (1, 9)] if ctx.thorough else []):
+        Y = rng.integers(-9, 10, (m, n)).astype(float)
+        for parg, warg, pints, wints, label in _spec_forms(rng, m, n):
+            meta = {'fn': 'pad_edges2d', 'check': 'spec', 'Y': Y.tolist(), 'pad_arg': _jsonable(parg), 'window_arg': _jsonable(warg),
+                    'pad_ints': pints, 'window_ints': wints, 'form': label}
+            try:
+                kind, out = _pad2d_outcome(utils, Y, parg, warg)
+            except Exception as e:
+                dis.append(Disagreement('c18.pad2d', 'pad2d:spec:raises', f'pad_edges2d({m}x{n}, {label}, pad_length={pints}, extrapolate_window={wints}) '
+                                        f'raised {type(e).__name__}: {e}', meta, True))
+                continue
+            ctx.case(('pad2dspec', m, n, label, tuple(pints), tuple(wints or ()), tuple(Y.ravel().tolist())), nontrivial=True,
+                     sample={'fn': 'pad_edges2d', 'shape': [m, n], 'pad_length': pints, 'extrapolate_window': wints, 'form': label}
+                     if (m, n) == (1, 4) and kind == 'ok' and label.startswith('pad pair') else None)
+            ctx.count('2d:spec:' + kind)
+            ctx.count('2d:form:' + label)
+            if m == 1 or n == 1:
+                ctx.count('2d:single row/column')
+            if len(pints) == 4 and (pints[0] != pints[1] or pints[2] != pints[3]) and kind == 'ok':
+                ctx.count('2d:four-valued pad_length with unequal sides (second and fourth entries ignored)')
+            if kind == 'ok' and len(pints) <= 2:
+                pr_, pc_ = pints[0], pints[-1]
+                if out.shape != (m + 2 * pr_, n + 2 * pc_) or not np.array_equal(out[pr_:pr_ + m, pc_:pc_ + n], Y):
+                    dis.append(Disagreement('c18.pad2d', 'pad2d:extrapolate', f'pad_edges2d({m}x{n}, {label}, pad_length={pints}) changes shape/interior '
+                                            f'(shape {out.shape})', meta, True))
+            lines.append(f'c18.pad2dspec {",".join(str(v) for v in pints)} {"none" if wints is None else ",".join(str(v) for v in wints)} {mat(Y)}')
+            exp.append((kind, out))
+            metas.append(('pad2dspec', meta))
+        # the strips are the 1-D pad_edges of the rows / columns (theorems pad2d_rows_are_1d / pad2d_cols_are_1d): the
+        # real 2-D code (pseudo-inverse of the Vandermonde matrix) against the real 1-D code (Polynomial.fit)
+        for _ in range(4):
+            pr_, pc_ = int(rng.integers(1, 4)), int(rng.integers(1, 2 * n + 2))
+            w4 = [int(rng.integers(1, m + 3)), int(rng.integers(1, m + 3)), int(rng.integers(1, n + 3)), int(rng.integers(1, n + 3))]
+            meta = {'fn': 'pad_edges2d', 'check': 'rows1d', 'Y': Y.tolist(), 'pad': [pr_, pc_], 'window': w4}
+            ctx.case(('rows1d', m, n, pr_, pc_, tuple(w4), tuple(Y.ravel().tolist())), nontrivial=True)
+            r = _rows1d(utils, Y, pr_, pc_, w4)
+            if r:
+                dis.append(Disagreement('c18.pad2d', 'pad2d:rows1d', r, meta, True))
+            # planar data against the right-hand side of extrap2d_planar_clamped computed by the model driver
+            a, b, c = float(rng.integers(-5, 6)), float(rng.integers(-4, 5)) / 2, float(rng.integers(-4, 5)) / 4
+            ii, jj = np.meshgrid(np.arange(m) + pr_, np.arange(n) + pc_, indexing='ij')
+            Yp = a + b * ii + c * jj
+            metap = {'fn': 'pad_edges2d', 'check': 'planar_clamped', 'abc': [a, b, c], 'shape': [m, n], 'pad': [pr_, pc_], 'window': w4}
+            try:
+                outp = utils.pad_edges2d(Yp, (pr_, pc_), 'extrapolate', extrapolate_window=[w4[:2], w4[2:]])
+            except Exception as e:
+                dis.append(Disagreement('c18.pad2d', 'pad2d:extrapolate:raises', f'pad_edges2d raised {type(e).__name__}: {e}', metap, True))
+                continue
+            ctx.case(('planar_clamped', m, n, pr_, pc_, tuple(w4), a, b, c), nontrivial=True)
+            lines.append(f'c18.planar {q(a)} {q(b)} {q(c)} {m} {n} {pr_} {pc_} {w4[0]} {w4[1]} {w4[2]} {w4[3]}')
+            exp.append(outp)
+            metas.append(('planar', metap))
     # ---- padded_convolve
     for n in [2, 3, 5, 8, 13]:
         for k in [1, 2, 3, 4, 5, 6, 7, 10, 20]:
@@ -218,6 +355,28 @@ def correspond(ctx):
     res = drive(lines)
     ctx.traces += len(lines)
     for ln, r, e, (kind, meta) in zip(lines, res, exp, metas):
+        if kind == 'pad2dspec':
+            rk, rout = e
+            mk, _, mbody = r.partition(' ')
+            bad = None
+            if mk != rk:
+                bad = f'the code gives {rk}, the model {mk}'
+            elif rk == 'ok':
+                pred = np.array([[float(v) for v in parse_qs(row)] for row in mbody.split(';')])
+                if not close(rout, pred, 1e-8):
+                    bad = (f'differs from the exact model by {float(np.max(np.abs(rout - pred)))}' if rout.shape == pred.shape
+                           else f'shape {rout.shape}, model {pred.shape}')
+            if bad:
+                dis.append(Disagreement('c18.model', 'model:pad2dspec', f'pad_edges2d(pad_length={meta["pad_ints"]}, extrapolate_window='
+                                        f'{meta["window_ints"]}; {meta["form"]}) on {len(meta["Y"])}x{len(meta["Y"][0])} data: {bad}', meta, False))
+            continue
+        if kind == 'planar':
+            pred = np.array([[float(v) for v in parse_qs(row)] for row in r.split(';')])
+            if not close(e, pred, 1e-8 * (1 + sum(meta['pad']))):
+                dis.append(Disagreement('c18.linear', 'linear:2d:clamped', f'pad_edges2d does not pad planar data as extrap2d_planar_clamped states '
+                                        f'({meta["shape"]}, pad={meta["pad"]}, windows={meta["window"]}): max err '
+                                        f'{float(np.max(np.abs(e - pred))) if e.shape == pred.shape else "shape"}', meta, True))
+            continue
         if kind == 'pad2d':
             pred = np.array([[float(v) for v in parse_qs(row)] for row in r.split(';')])
         else:
@@ -240,6 +399,31 @@ def replay(ctx, data):
     from pybaselines import utils
     r = data['replay']
     try:
+        if r.get('check') == 'rows1d':
+            return _rows1d(utils, np.array(r['Y']), r['pad'][0], r['pad'][1], r['window'])
+        if r.get('check') == 'planar_clamped':
+            a, b, c = r['abc']
+            (m, n), (pr_, pc_), w4 = r['shape'], r['pad'], r['window']
+            ii, jj = np.meshgrid(np.arange(m) + pr_, np.arange(n) + pc_, indexing='ij')
+            out = utils.pad_edges2d(a + b * ii + c * jj, (pr_, pc_), 'extrapolate', extrapolate_window=[w4[:2], w4[2:]])
+            res = drive([f'c18.planar {q(a)} {q(b)} {q(c)} {m} {n} {pr_} {pc_} {w4[0]} {w4[1]} {w4[2]} {w4[3]}'])[0]
+            pred = np.array([[float(v) for v in parse_qs(row)] for row in res.split(';')])
+            return None if close(out, pred, 1e-8 * (1 + pr_ + pc_)) else 'planar data not padded as extrap2d_planar_clamped states'
+        if r.get('check') == 'spec':
+            Y = np.array(r['Y'])
+            try:
+                kind, out = _pad2d_outcome(utils, Y, r['pad_arg'], r['window_arg'])
+            except Exception as e:
+                return f'{type(e).__name__}: {e}'
+            pints, wints = r['pad_ints'], r['window_ints']
+            res = drive([f'c18.pad2dspec {",".join(str(v) for v in pints)} {"none" if wints is None else ",".join(str(v) for v in wints)} {mat(Y)}'])[0]
+            mk, _, mbody = res.partition(' ')
+            if mk != kind:
+                return f'the code gives {kind}, the model {mk}'
+            if kind == 'ok':
+                pred = np.array([[float(v) for v in parse_qs(row)] for row in mbody.split(';')])
+                return None if close(out, pred, 1e-8) else 'differs from the exact model'
+            return None
         if r.get('check') == 'planar':
             Y = np.array(r['Y'])
             m, n = Y.shape
